@@ -6,7 +6,7 @@ import ast
 
 from sa import dataflow as df
 from sa import loop as lp
-from sa.krylov import buffer_dtype_obligations, closure, nospace, norm_written, projection_convention
+from sa.krylov import buffer_dtype_obligations, closure, first_column_obligation, nospace, norm_written, projection_convention
 
 
 def fn(idx, rep, name):
@@ -116,16 +116,7 @@ def run(idx, rep, tier):
         if not n_proj:
             rep.undecided("projection", "arnoldi_fact:projection", "no Gram-Schmidt projection step recognised")
     # ---- first column
-    iasg = df.assignments(init.node)
-    rhs = init.params[1]
-    norm_name = next((n for n, vals in iasg.items() for v, p, st in vals if isinstance(v, ast.Call) and df.is_xnp_call(v) == "norm" and v.args and nospace(v.args[0]) == rhs), None)
-    divided = any(isinstance(v, ast.BinOp) and isinstance(v.op, ast.Div) and nospace(v.left) == rhs and nospace(v.right) == norm_name for v, p, st in iasg.get(rhs, []))
-    inplace = any(isinstance(n, ast.AugAssign) and nospace(n.target) == rhs for n in df.body_nodes(init.node))
-    stores = [c for c in df.calls(init.node) if df.is_xnp_call(c) == "update_array" and len(c.args) >= 2 and rhs in df.names_in(c.args[1])]
-    col0 = bool(stores) and nospace(stores[0].args[-1]) == "0"
-    ok = divided and col0 and not inplace
-    rep.decide(ok, "first-column", "init_arnoldi", f"start vector {'divided by its norm' if divided else 'NOT normalised'}{' IN PLACE' if inplace else ''}, stored in column "
-               f"{nospace(stores[0].args[-1]) if stores else '?'}", detail="" if ok else "first-column", locs=[idx.loc(init.module, init.node)])
+    first_column_obligation(idx, rep, init, "0", "init_arnoldi")
     # ---- arnoldi_eigs: drop last row of H and last column of Q
     src = nospace(eigs.node)
     qn = hn = None
